@@ -30,7 +30,7 @@ struct C14 : Scenario {
         Plan p;
         SwarmOpts o;
         o.max_grid = 24; o.min_grid = 10;
-        o.max_steps = 30; o.min_steps = 4;
+        o.max_steps = 30; o.min_steps = 10;
         o.min_rot_steps = 2;
         o.max_rot_steps = tier == "quick" ? 5 : 9;
         Cfg c = swarm_cfg(r, o);
